@@ -60,6 +60,7 @@ CRATE_FINDERS = {
 EXTRA_FINDERS = {"log": [("tests/", "units/log/finder_show_test.rs"), ("tests/", "units/log/finder_tail_test.rs")], "config": [("tests/", "units/config/finder_generate_test.rs")]}
 # units whose only finder is an integration test
 CRATE_FINDERS["cli"] = ("tests/", "units/cli/finder_outdelete_test.rs")
+CRATE_FINDERS["show"] = ("tests/", "units/show/finder_test.rs")
 CACHE = os.path.join(U.VERIF, ".cache")
 
 
